@@ -344,7 +344,25 @@ def c03(tier):
     return jobs, meta
 
 
+def c16(tier):
+    jobs = []
+    for k in range(16):
+        jobs.append((H('.', 'HarnessC16Identifier'), P('.'), None, {'params': {'env': k}, 'label': 'identifier env=%d' % k}))
+        jobs.append((H('.', 'HarnessC16Call'), P('.'), None, {'params': {'env': k}, 'label': 'call env=%d' % k}))
+        jobs.append((H('.', 'HarnessC16Doc'), P('.'), None, {'params': {'env': k}, 'label': 'doc env=%d' % k}))
+    jobs.append((H('.', 'HarnessC16Member'), P('.'), None, {'label': 'member'}))
+    meta = {
+        'explanation': 'real CreateTypesTable/FieldsFromStruct, checker IdentifierNode/PropertyNode/MethodNode/FunctionNode (fieldType, methodType), vm.fetch/FetchFn and docgen.CreateDoc executed on a family of 16 environment values (embedding by value and by pointer, shadowing at the same and at different depths, outer field before/after the embedded struct, genuine ambiguity, unexported fields and unexported embedded types, value and pointer receivers, typed and untyped maps, function-valued members, nested struct members) x 18 member and near-miss names chosen symbolically: (i) a name Compile accepts resolves at run time on the populated value with the assumed type; (ii) for struct environments every exported member that Go itself resolves unambiguously (reflect.Type.FieldByName / MethodByName, i.e. the selector rule of the interpreter model) is accepted; (iii) docgen.CreateDoc(...).Variables lists exactly the accepted names',
+        'bounds': {'environment types': 16, 'names': 18, 'embedding depth': 2},
+        'outside': ['environment types beyond the family (parametric shapes chosen by the solver were not built: Go types are static)', 'docgen type rendering', 'protobuf XXX_ filtering'],
+        'assumptions': COMMON_ASSUME + ['the reflect model (FieldByName selector rule, CanInterface on unexported fields, method sets) follows the reflect documentation'],
+        'must_reach': ['c16.ident.compiled', 'c16.call.compiled', 'c16.member.compiled', 'c16.doc.created'],
+    }
+    return jobs, meta
+
+
 PROPS = {
+    'C16': c16,
     'C03': c03,
     'C17': c17,
     'C11': c11,
